@@ -519,7 +519,7 @@ pub fn prop() -> Prop {
         parts: vec![Part { name: "receiver", case, quick: 200_000, thorough: 5_000_000 }],
         phases: vec![],
         smoltcp_panic_is_violation: true,
-        rule: "one TCP socket (rx buffer 1..=200000, listen or connect, IPv4/IPv6, peer ISN biased to wrap points, handshake options drawn) fed by a scripted peer that owns a fixed byte stream and sends <=200 segments placed relative to the window the socket currently advertises (old, left-overlapping, in order, hole-creating, straddling/just beyond/far beyond the right edge, with FIN only at the end of the stream), interleaved with application reads and time advances; oracle = reference receiver built from the segments delivered and the windows read off the socket's own emitted segments by an independent TCP decoder; non-trivial = at least one data segment partly outside the window or overlapping delivered data, and at least one application read; distinct by digest of (config, segment list)",
+        rule: "one TCP socket (rx buffer 1..=200000, listen or connect, IPv4/IPv6, peer ISN biased to wrap points, handshake options drawn) fed by a scripted peer that owns a fixed byte stream and sends <=200 segments placed relative to the window the socket currently advertises (old, left-overlapping, in order, hole-creating, straddling/just beyond/far beyond the right edge, with FIN only at the end of the stream, and text placed beyond that FIN once it has been sent - during the run and again after end-of-stream was reported), interleaved with application reads and time advances; oracle = reference receiver built from the segments delivered and the windows read off the socket's own emitted segments by an independent TCP decoder; non-trivial = at least one data segment partly outside the window or overlapping delivered data, and at least one application read; distinct by digest of (config, segment list)",
         assumptions: vec![
             "independent IPv4/IPv6/TCP codec in vkit::indep",
             "a byte counts as 'arrived in window' if any delivered segment carried it while its sequence number was below the highest right edge advertised so far (necessary condition only)",
